@@ -395,7 +395,12 @@ Lemma cls_test (c : cid) : (fst (cidZ c) =? 6)%Z = (fst c =? 6).
 Proof. unfold cidZ. cbn [fst]. change 6%Z with (Z.of_N 6). apply Zeqb_N. Qed.
 
 Definition resp_val (r : option rframe) : pyval := match r with Some f => PFrame f | None => PNone end.
-Definition state_val (ack : bool) : pyval := PStr (if ack then "wait-ack" else "wait-response").
+(* the four tags of poll()'s state local, as the current source spells them (by position in g_poll_state_strings) *)
+Notation swr := ltac:(let v := eval vm_compute in (nth 0 g_poll_state_strings ""%string) in exact v) (only parsing).
+Notation swa := ltac:(let v := eval vm_compute in (nth 1 g_poll_state_strings ""%string) in exact v) (only parsing).
+Notation sok := ltac:(let v := eval vm_compute in (nth 2 g_poll_state_strings ""%string) in exact v) (only parsing).
+Notation sto := ltac:(let v := eval vm_compute in (nth 3 g_poll_state_strings ""%string) in exact v) (only parsing).
+Definition state_val (ack : bool) : pyval := PStr (if ack then swa else swr).
 
 Theorem bridge_poll : forall fuel fuel' rq (w : W), (fuel < fuel')%nat ->
   fst (poll B sk fuel rq w) <> OutOfFuel ->
@@ -409,16 +414,16 @@ Proof.
         poll__response l = resp_val resp -> poll__time_end l = PInt (Z.of_N d) -> (ack = true -> resp <> None) ->
         match poll_phase B sk k (rq_cid rq) ack resp d w with
         | (AFuel, _) => True
-        | (AOk f, w') => exists l', s_while j c wbody l w = CNormal l' w' /\ poll__state l' = PStr "ok"
+        | (AOk f, w') => exists l', s_while j c wbody l w = CNormal l' w' /\ poll__state l' = PStr sok
                                     /\ poll__response l' = PFrame f /\ poll__frame_poll l' = PReq rq (Some payload)
-        | (ATimeout, w') => exists l', s_while j c wbody l w = CNormal l' w' /\ poll__state l' = PStr "timeout"
+        | (ATimeout, w') => exists l', s_while j c wbody l w = CNormal l' w' /\ poll__state l' = PStr sto
                                     /\ poll__frame_poll l' = PReq rq (Some payload)
         end) end.
   { intros payload wbody Hwb; induction k as [|k IH]; intros j l w' ack resp d Hj Hk Hfp Hst Hre Hte Hinv; [exact I|].
     rewrite poll_phase_unfold. unfold CLASS_CFG.
     destruct (wait B sk (S k) d w') as [[[f|]|] w2] eqn:Hw; [| |exact I];
     (destruct j as [|j]; [lia|]); cbn [s_while]; rewrite Hst;
-    (replace (negb (py_eq (state_val ack) (PStr "ok")) && negb (py_eq (state_val ack) (PStr "timeout"))) with true
+    (replace (negb (py_eq (state_val ack) (PStr sok)) && negb (py_eq (state_val ack) (PStr sto))) with true
        by (destruct ack; reflexivity));
     rewrite Hwb; cbv beta; rewrite Hte, (proj1 (bridge_wait fuel' _)),
       (wait_mono (S k) fuel' d w' _ _ ltac:(lia) Hw); cbn.
